@@ -70,7 +70,10 @@ impl<S: Storage> TableScanExecutor<S> {
             // verif hook: a batch of an executor-level scan was fetched (yield point between the
             // batches of a streaming scan; the read txn's pin must still be held here)
             #[cfg(risinglight_verif)]
-            crate::verif::point("scan.batch", &x.cardinality().to_string()).await;
+            {
+                let detail = x.cardinality().to_string();
+                crate::verif::point("scan.batch", &detail).await;
+            }
             if self.columns.is_empty() {
                 x = DataChunk::no_column(x.cardinality());
             } else if col_idx.len() > user_columns {
